@@ -21,6 +21,8 @@ type Check struct {
 	N        int
 	DevBound int // deviations (map order + rand) per Join(-1); <0 = all
 	MaxState int
+	Beside   bool // a second seat manager lives in the process (see otherTable)
+	Workers  int  // 0 = all cores
 
 	scenarios int64
 	nextOK    int64
@@ -481,14 +483,20 @@ func identity(m *sm.SeatManager) string {
 	return b.String()
 }
 
-func replayHist(n int, hist []string) *sm.SeatManager {
+func replayHist(n int, hist []string, beside bool) *sm.SeatManager {
 	m := sm.NewSeatManager(n)
+	if beside {
+		otherTable()
+	}
 	for _, l := range hist {
 		op, choices, err := parseStep(l)
 		if err != nil {
 			panic(err)
 		}
 		exec(m, op, vrt.NewChooser(choices))
+		if beside {
+			otherTable()
+		}
 	}
 	return m
 }
@@ -497,7 +505,7 @@ func replayHist(n int, hist []string) *sm.SeatManager {
 // obtained by replaying the whole history on a fresh seat manager (pointer identities, replaced
 // records and any other in-memory-only effect are kept). Used for the small tables.
 func (c *Check) RunReplay() {
-	b := &explore.BFS[*rnode]{MaxStates: c.MaxState, KeyOf: func(r *rnode) explore.Key {
+	b := &explore.BFS[*rnode]{Workers: c.Workers, MaxStates: c.MaxState, KeyOf: func(r *rnode) explore.Key {
 		k := r.st.key()
 		return explore.HashKey(append(k[:], r.ident...))
 	}}
@@ -513,7 +521,7 @@ func (c *Check) RunReplay() {
 		if c.Rep.Skip(sig, len(h)) {
 			return
 		}
-		v := &explore.Violation{Property: c.Property, Engine: "seats", Signature: sig, Message: msg, Config: cfgOf(c.N), History: h, Expected: exp, Observed: obs}
+		v := &explore.Violation{Property: c.Property, Engine: "seats", Signature: sig, Message: msg, Config: c.cfg(), History: h, Expected: exp, Observed: obs}
 		v.Confirm = func() (bool, string) { return Replay(v) }
 		v.GoTestFn = func() string { return goTest(c.N, h) }
 		c.Rep.Violation(v)
@@ -525,11 +533,14 @@ func (c *Check) RunReplay() {
 		}
 		for _, op := range ops {
 			one := func(ch *vrt.Chooser) {
-				m := replayHist(c.N, pre.hist)
+				m := replayHist(c.N, pre.hist, c.Beside)
 				if ch == nil {
 					ch = vrt.NewChooser(nil)
 				}
 				out := exec(m, op, ch)
+				if c.Beside {
+					otherTable()
+				}
 				label := stepLabel(op, ch.Choices())
 				post := Snap(m, c.N)
 				c.updateHeld(pre.st, op, out, post)
@@ -696,8 +707,11 @@ func Replay(v *explore.Violation) (bool, string) {
 	}
 	runtime.LockOSThread()
 	defer runtime.UnlockOSThread()
-	c := &Check{Property: v.Property, Rep: explore.NewReport(v.Property, "replay"), N: cfg.N}
+	c := &Check{Property: v.Property, Rep: explore.NewReport(v.Property, "replay"), N: cfg.N, Beside: cfg.Beside}
 	m := sm.NewSeatManager(cfg.N)
+	if cfg.Beside {
+		otherTable()
+	}
 	pre := Snap(m, cfg.N)
 	found := ""
 	for _, l := range v.History {
@@ -713,6 +727,9 @@ func Replay(v *explore.Violation) (bool, string) {
 			})
 		}
 		out := exec(m, op, vrt.NewChooser(choices))
+		if cfg.Beside {
+			otherTable()
+		}
 		post := Snap(m, cfg.N)
 		c.updateHeld(pre, op, out, post)
 		c.oracle(pre, op, out, post, m, func(sig, msg, exp, obs string) {
